@@ -1,7 +1,7 @@
 (* Properties_C07.v — C07: frame-adding calls enforce their documented preconditions.
    doc_frame / doc_pointcol are the documented guards as functions of what the object
    declares (POINT:USED, POINT:LABELS, the two rates, ANALOG:USED, sub-frames per frame). *)
-From EZ Require Import Base Types Api Proofs_Store Proofs_Guards Float32 Run.
+From EZ Require Import Base Types Api Proofs_Store Proofs_Guards Proofs_Updaters Proofs_AnalogCol Float32 Run.
 Local Open Scope N_scope.
 
 (* frame(f, idx) is refused exactly when a documented precondition fails, with the documented class,
@@ -45,14 +45,20 @@ Theorem C07_point_column_guard : forall f_key f_tosize f_div news s labels,
 Proof. exact api_point_col_doc. Qed.
 Print Assumptions C07_point_column_guard.
 
-(* full statement for analog(frames), same shape; NOT yet proved in Coq (validated by the correspondence
-   and the direct oracle of the C07 check) *)
-Definition C07_channel_column_statement : Prop := forall f_key f_tosize f_div news s labels,
+(* analog(frames): refused exactly as documented (number of frames, sub-frame count of the first supplied frame, nothing
+   supplied, a channel name that already exists), in that order, the object returned as it was; otherwise the columns are
+   added and the updaters run.  For supplied and stored frames of uniform shape (every one has the header's sub-frames, each
+   as wide as the first). *)
+Theorem C07_channel_column_guard : forall f_key f_tosize f_div news s labels,
   r_strs (groups s) nm_ANALOG nm_LABELS = Ok labels ->
-  (nlen news = 0 \/ nlen news <> nlen (frames s) ->
-     api_analog_col f_key f_tosize f_div news s = RThrow InvalidArgument s) /\
-  (forall n0, nth_error news 0 = Some n0 -> nlen news = nlen (frames s) -> nlen (fr_subs n0) <> h_byframe (hdr s) ->
-     api_analog_col f_key f_tosize f_div news s = RThrow InvalidArgument s).
+  uniform_chancol (N.to_nat (h_byframe (hdr s))) (width0 news) (frames s) news ->
+  api_analog_col f_key f_tosize f_div news s =
+    match doc_chancol (nlen (frames s)) (h_byframe (hdr s)) labels news with
+    | Some x => RThrow x s
+    | None => chancols_and_update f_key f_tosize f_div news (N.to_nat (width0 news)) s
+    end.
+Proof. exact api_analog_col_doc. Qed.
+Print Assumptions C07_channel_column_guard.
 
 (* non-vacuity: a refusal and an acceptance on concrete objects of the executable instance *)
 Example C07_nonvacuous :
